@@ -171,7 +171,8 @@ Proof.
     destruct arg; try reflexivity. exists m. split; [reflexivity|]. intros k Hk. inversion Hk.
   - (* includes *)
     destruct (r !! col) as [v|] eqn:Hv; [|destruct arg as [| [|] | |]; discriminate].
-    destruct arg as [b|[b|]|t|n]; try discriminate; intros [= <-]; unfold ic_holds; simpl; rewrite Hv; intros He.
+    destruct arg as [b|[b|]|t|n]; try discriminate; [| |destruct (decide (n = ∅)); [discriminate|]];
+      intros [= <-]; unfold ic_holds; simpl; rewrite Hv; intros He.
     + destruct v; try discriminate. simpl in He. apply bool_decide_eq_true in He. congruence.
     + destruct v as [|o| |]; try discriminate. simpl in He. apply bool_decide_eq_true in He.
       destruct o as [a|]; simpl in He; [|set_solver]. f_equal. f_equal. f_equal. set_solver.
@@ -266,7 +267,8 @@ Proof.
   destruct cd as [[col f] arg]. unfold to_indexable. destruct (N.eqb col ucol); [discriminate|].
   destruct f; try discriminate.
   - intros [= <-]. unfold ic_wf. simpl. destruct arg; reflexivity.
-  - destruct arg as [b|[b|]|t|n]; try discriminate; intros [= <-]; unfold ic_wf; simpl; auto.
+  - destruct arg as [b|[b|]|t|n]; try discriminate; [| |destruct (decide (n = ∅)); [discriminate|]];
+      intros [= <-]; unfold ic_wf; simpl; auto.
 Qed.
 
 Lemma col_key_agree T r mvals ic ck :
